@@ -2,6 +2,7 @@ use nom::branch::alt;
 use nom::combinator::{map, map_res, opt};
 use nom::multi::{many0, many1, separated_list0, separated_list1};
 use nom::sequence::{delimited, preceded, tuple};
+use num_complex::Complex64;
 
 use crate::expression::Expression;
 use crate::instruction::{
@@ -148,11 +149,37 @@ fn parse_call_argument<'a>(
             UnresolvedCallArgument::MemoryReference,
         ),
         map(token!(Identifier(v)), UnresolvedCallArgument::Identifier),
-        map(
-            super::expression::parse_immediate_value,
-            UnresolvedCallArgument::Immediate,
-        ),
+        map(parse_call_immediate, UnresolvedCallArgument::Immediate),
     ))(input)
+}
+
+/// Parse an immediate complex argument of a `CALL` instruction in any of the forms in which it is
+/// written: a real or imaginary number (`1`, `2.0i`), optionally negated (`-1`, `-2.0i`), or the
+/// sum or difference of a real and an imaginary number (`1+2.0i`, `-1-2.0i`).
+fn parse_call_immediate<'a>(input: ParserInput<'a>) -> InternalParserResult<'a, Complex64> {
+    use super::expression::parse_immediate_value;
+
+    // Subtract from zero rather than negate, so that the part that is zero stays `+0.0`.
+    let negate = |value: Complex64| Complex64::new(0f64, 0f64) - value;
+
+    let (input, minus) = opt(token!(Operator(Operator::Minus)))(input)?;
+    let (input, first) = parse_immediate_value(input)?;
+    let first = if minus.is_some() { negate(first) } else { first };
+
+    let imaginary_part = alt((
+        preceded(token!(Operator(Operator::Plus)), parse_immediate_value),
+        map(
+            preceded(token!(Operator(Operator::Minus)), parse_immediate_value),
+            negate,
+        ),
+    ));
+    match opt(imaginary_part)(input)? {
+        (input, Some(second)) if first.im == 0f64 && second.re == 0f64 && second.im != 0f64 => {
+            Ok((input, first + second))
+        }
+        // Otherwise, what follows is not part of this argument.
+        _ => Ok((input, first)),
+    }
 }
 
 /// Parse the contents of a `CAPTURE` instruction.
